@@ -62,6 +62,17 @@ def norm_cond(c):
     return c
 
 
+def norm_guards(guards):
+    """[(condition, polarity)] with negations folded into the polarity and membership tests in one spelling (norm_cond)."""
+    out = []
+    for g, pol in guards:
+        g = norm_cond(g)
+        while isinstance(g, App) and g.op == "not" and len(g.args) == 1:
+            g, pol = g.args[0], not pol
+        out.append((g, pol))
+    return out
+
+
 def taken_outcomes(outs, facts, strict=True):
     """The outcomes of a function whose path conditions all hold under `facts` ({atomic condition term: bool}, atoms spelled as by
     norm_cond).  Conditions are evaluated in path order and evaluation stops at the first false one.  A condition the facts do not
